@@ -185,12 +185,18 @@ _probe = None
 
 
 def probe():
+    """Source-text line probe of the walk's arms: evidence only; absent if the code moved."""
     global _probe
     if _probe is None:
-        import catii
+        try:
+            import catii
 
-        _probe = monitors.LineProbe([catii.ccube.__dict__["_walk"]], classify)
-        _probe.install()
+            _probe = monitors.LineProbe([catii.ccube.__dict__["_walk"]], classify)
+            _probe.install()
+        except Exception:
+            from .c01 import _NoProbe
+
+            _probe = _NoProbe()
     return _probe
 
 
